@@ -17,7 +17,7 @@ import (
 //                  guarded lazy fill (rows `.write` / `.elem` / `.reset` of family fieldwrites whose target is the
 //                  receiver), closed under "calls such a method on its receiver" (Put calls PutAll)
 //   mutatorCalls   every call `x.M(…)` with M ∈ mutatorNames in a non-test file of any OTHER package of the repository:
-//                  (package directory, enclosing function, M) — name based: the receiver's type is not resolved, so a
+//                  (file, M) — per file, so that extracting or renaming a function inside a file adds no row; name based: the receiver's type is not resolved, so a
 //                  method of the same name on a non-value (a loader's Resolve) is listed too
 //
 //   aliasAccessors every exported method of a value struct with `return recv.f` for a slice / map field f: the accessor
@@ -153,7 +153,7 @@ func genMutatorCalls() string {
 						if id, ok := se.X.(*ast.Ident); ok && pkgs[id.Name] {
 							return true // a package-level function
 						}
-						seen[crow{dir, funcKey(fd), se.Sel.Name}] = true
+						seen[crow{rel, "", se.Sel.Name}] = true
 					}
 				}
 				return true
@@ -257,9 +257,9 @@ func genMutatorCalls() string {
 	fmt.Fprintf(&b, "/-- exported methods of value structs that assign a field of their receiver (not as a guarded lazy fill) -/\ndef mutatorNames : List String := [%s]\n\n", strings.Join(ql, ", "))
 	var rl []string
 	for _, c := range cl {
-		rl = append(rl, fmt.Sprintf("  (%s, %s, %s)", leanStr(c.pkg), leanStr(c.fn), leanStr(c.m)))
+		rl = append(rl, fmt.Sprintf("  (%s, %s)", leanStr(c.pkg), leanStr(c.m)))
 	}
-	fmt.Fprintf(&b, "/-- calls of a method of one of those names outside package types: (package, function, method) -/\ndef mutatorCalls : List (String × String × String) := [\n%s]\n", strings.Join(rl, ",\n"))
+	fmt.Fprintf(&b, "/-- calls of a method of one of those names outside package types: (file, method) -/\ndef mutatorCalls : List (String × String) := [\n%s]\n", strings.Join(rl, ",\n"))
 	fmt.Fprintf(&b, "\n/-- exported methods of value structs that return a slice / map field of the receiver as it is: (method, field) -/\ndef aliasAccessors : List (String × String) := [\n  %s]\n", strings.Join(al, ",\n  "))
 	b.WriteString("\nend Pcore.Generated\n")
 	return b.String()
